@@ -155,33 +155,37 @@ func (m *model) crossMerged(sets []gast.SelectionSet, declared string) map[strin
 	return out
 }
 
-// opClass names the first recorded planner finding whose input class the operation is in
-// ("" = none): every level of the operation is inspected.
-func (m *model) opClass() string {
+// opClass names the first recorded planner finding accepted by want whose input class the
+// operation is in ("" = none): every level of the operation is inspected.
+func (m *model) opClass(want func(id string) bool) string {
 	found := ""
+	hit := func(id string) {
+		if found == "" && want(id) {
+			found = id
+		}
+	}
 	var walk func(sets []gast.SelectionSet, declared string, depth int)
 	walk = func(sets []gast.SelectionSet, declared string, depth int) {
 		if found != "" || depth > maxOpDepth+1 {
 			return
 		}
 		l := m.levelInfo(sets, declared)
-		switch {
-		case l.unionTypename():
-			found = findingUnionTypename
-		case l.nestedAbstract > 0:
-			found = findingNestedAbstract
+		if l.unionTypename() {
+			hit(findingUnionTypename)
 		}
-		if found != "" {
-			return
+		if l.nestedAbstract > 0 {
+			hit(findingNestedAbstract)
 		}
 		for _, pair := range m.crossMerged(sets, declared) {
 			if t := pair[0].typ; t.Elem != nil && t.Elem.Elem != nil {
-				found = findingMergeNestedList
+				hit(findingMergeNestedList)
 			} else {
 				// sub-selections are merged with differing parent conditions: any leaf key below
 				// may get mixed conditions
-				found = findingMergeScalars
+				hit(findingMergeScalars)
 			}
+		}
+		if found != "" {
 			return
 		}
 		seen := map[string]bool{}
